@@ -123,7 +123,14 @@ def task(item):
         c[0] += 1
         c[1] = max(c[1], err)
 
+    # construction history: estimators with OTHER order tuples (sharing three of the four orders with the ones under test, the
+    # fourth being 1) are created first in this process and stay alive - rule objects shared between instances would show up as
+    # wrong orders in the estimators under test (the driver itself passes a tuple, e.g. 5355)
+    decoys = [ErrorEstimator(m, N_poly=tuple(1 if k == pos else N for k in range(4))) for N in POLY_ORDERS for pos in (3, 2, 1, 0)]  # the tuple differing in the LAST order first (first-wins caches)
+    out['decoys'] = len(decoys)
     ests = {N: ErrorEstimator(m, N_poly=N) for N in POLY_ORDERS}
+    decoys += [ErrorEstimator(m, N_poly=tuple((3 if N != 3 else 7) if k == pos else N for k in range(4))) for N in POLY_ORDERS for pos in range(4)]  # ... and afterwards
+    out['decoys'] = len(decoys)
     for e in elems:
         e6 = leaf6(e)
         geo_space = sorted(set(ref.nbrs(e6, 1) + ref.nbrs(e6, 3)))
